@@ -43,6 +43,11 @@ theorem verdict :
 #print axioms routing_gap_witness
 #print axioms routing_overlap_witness
 #print axioms refutes_unvalidated
+#print axioms Hv.Stack.sdk_requests_one_folder
+#print axioms Hv.Stack.checked_requests_one_folder
+#print axioms Hv.Stack.unchecked_two_swamps
+#print axioms refutes_island_unchecked
+#print axioms same_name_two_islands
 #print axioms Hv.Name.canon_collision
 #print axioms Hv.Name.load_canon
 #print axioms Hv.Name.hexDigits_inj
